@@ -149,10 +149,13 @@ pub(super) fn read_series<'a>(src: &mut &'a [u8], sample_count: usize) -> io::Re
     }
 
     let id = read_string_map_index(src)?;
-    let ty = read_type(src)?.expect("invalid type");
+    let ty = read_type(src)?
+        .ok_or_else(|| io::Error::new(io::ErrorKind::InvalidData, "invalid type"))?;
 
-    let len = size_of(ty) * sample_count;
-    let (buf, rest) = src.split_at(len);
+    let (buf, rest) = size_of(ty)
+        .checked_mul(sample_count)
+        .and_then(|len| src.split_at_checked(len))
+        .ok_or_else(|| io::Error::from(io::ErrorKind::UnexpectedEof))?;
 
     *src = rest;
 
